@@ -127,7 +127,8 @@ def case_strategy(draw, tier="quick"):
                     start, count, stride = draw(G.box(shape, stride=form not in ("vara", "varn")))
                 reqs[str(r)] = draw(req_for(v, vi, shape, start, count, stride, is_rec, numrecs, form=form, mtsel=mtsel))
             steps.append({"op": "read", "indep": indep, "reqs": reqs})
-    return {"schema": sch, "k": k, "steps": steps}
+    # intra-node write aggregation for collective writes (hint nc_num_aggrs_per_node): 0 = off
+    return {"schema": sch, "k": k, "steps": steps, "aggr": min(k, draw(st.sampled_from([0, 0, 0, 0, 1, 2])))}
 
 
 def steps_k(steps, k):
@@ -224,8 +225,12 @@ def build(case):
     """case -> (Prog, info)"""
     sch, k = case["schema"], case["k"]
     p = Prog(k=k)
-    fm = define_schema(p, sch)
-    labels = set()
+    ikw = {}
+    if case.get("aggr"):
+        p.s.op("info", i="i1", **{"h__nc_num_aggrs_per_node": hx(str(case["aggr"]))})
+        ikw = {"info": "i1"}
+    fm = define_schema(p, sch, info=ikw.get("info"))
+    labels = set(["aggregators_per_node_%d" % case.get("aggr", 0)])
     written_form = {}     # (var) -> set of forms used to write
     nontrivial = False
     curk = k
@@ -248,6 +253,7 @@ def build(case):
             # rank set is modelled by opening with comm=self on rank 0 only when k'==1, else all ranks
             curk = p.k if stp["k"] > 1 else 1
             kw = {"comm": "self"} if curk == 1 and p.k > 1 else {}
+            kw.update(ikw)
             p.op("open", ranks=range(curk), step=(curk == p.k), f="f0", path=hx(path), mode=1 if stp["rw"] else 0, **kw)
             writable = stp["rw"]
             indep = False
